@@ -599,3 +599,83 @@ def no_fold_after_restore_rule(m, rid):
                        "already undone (`%s`): blanks inside / the case of character literals in it are lost (`cnt(ichar(' ')) = 0` becomes "
                        "`cnt(ichar('')) = 0`)" % (c["name"], name, bad.func.attr, A.text(bad)[:60]), m.loc(f, bad))
     return r
+
+
+# ---------------------------------------------------------------------------------------------------------------
+# the selector helpers of fparser1's type declarations, decided as tables
+CHAR_SELECTORS = [
+    ("", ("", "")), ("*5", ("5", "")), ("* 5", ("5", "")), ("*(*)", ("*", "")), ("*(n+1)", ("n+1", "")), ("*(length)", ("length", "")),
+    ("*(lenx+1)", ("lenx+1", "")), ("*( len )", ("len", "")), ("*(n),", ("n", "")),
+    ("(5)", ("5", "")), ("(len=5)", ("5", "")), ("(LEN = n)", ("n", "")), ("(kind=1)", ("", "1")), ("(len=5, kind=1)", ("5", "1")),
+    ("(kind=1, len=5)", ("5", "1")), ("(5, 1)", ("5", "1")), ("(5, kind=1)", ("5", "1")), ("(len(a))", ("len(a)", "")),
+    ("(lenmax)", ("lenmax", "")), ("(kind(a))", ("kind(a)", "")), ("(len=len(a), kind=kind(b))", ("len(a)", "kind(b)")),
+    ("(len(a), kind(b))", ("len(a)", "kind(b)")), ("(*)", ("*", "")), ("(len=*)", ("*", "")), ("(:)", (":", "")),
+]
+KIND_SELECTORS = [
+    ("", ("", "")), ("*8", ("8", "")), ("* 8", ("8", "")), ("(4)", ("", "4")), ("(kind=4)", ("", "4")), ("(KIND = k)", ("", "k")),
+    ("(kind(1))", ("", "kind(1)")), ("(k_r)", ("", "k_r")), ("(selected_real_kind(6))", ("", "selected_real_kind(6)")),
+]
+SPLIT_SELECTORS = [
+    ("len=5", ("len", "5")), ("LEN = n+1", ("len", "n+1")), ("kind=1", ("kind", "1")), ("Kind =k", ("kind", "k")), ("5", (None, "5")),
+    ("len(a)", (None, "len(a)")), ("kind(a)", (None, "kind(a)")), ("lenmax", (None, "lenmax")), ("kinds", (None, "kinds")), ("*", (None, "*")),
+    ("len", (None, "len")), ("n=len", (None, "n=len")),
+]
+
+
+def selector_table_rule(m, rid):
+    from sa import pureeval as PE
+    r = RuleResult(rid, "fparser1 type declarations: the length / kind selector helpers, decided as tables -- every length and kind expression "
+                        "comes out character for character, whatever its spelling (names that begin with 'len' or 'kind', calls of len()/kind())")
+    r.floor = 40
+    k = m.key("TypeDeclarationStatement", "fparser.one.typedecl_statements")
+    fs = {n: m.method(k, n) for n in ("_parse_char_selector", "_parse_kind_selector", "_split_char_selector")}
+    if k is None or any(v is None for v in fs.values()):
+        r.error("TypeDeclarationStatement selector helpers vanished: %s" % [n for n, v in fs.items() if v is None])
+        return r
+    g = dict(PE.module_regexes(m, "fparser.one.typedecl_statements"))
+    sc = m.need_func("fparser.common.utils", "split_comma")
+    ev = PE.Evaluator(g)
+    ev.g["split_comma"] = lambda *a, **k_: PE.Evaluator({}).run_function(sc.node, list(a), k_)
+    ev.g["repr"] = repr
+    # class-level attributes of the statement class (e.g. a regex kept on the class) are visible through self
+    me = PE.Obj({"item": None})
+    cd = m.classdef(k)
+    for b in cd.body if cd is not None else ():
+        if isinstance(b, ast.Assign) and len(b.targets) == 1 and isinstance(b.targets[0], ast.Name) and isinstance(b.value, ast.Call) \
+                and A.text(b.value.func) in ("re.compile",):
+            try:
+                import re as _re
+                flags = 0
+                for a_ in b.value.args[1:]:
+                    for nm in A.text(a_).replace("re.", "").split("|"):
+                        flags |= getattr(_re, nm.strip())
+                pat = ast.literal_eval(b.value.args[0])
+                me.fields[b.targets[0].id] = _re.compile(pat, flags)
+            except Exception:
+                pass
+    for n, f in fs.items():
+        me.fields[n] = (lambda fn: (lambda *a: ev.run_function(fn.node, [me] + list(a))))(f)
+    for meth, table in (("_parse_char_selector", CHAR_SELECTORS), ("_parse_kind_selector", KIND_SELECTORS), ("_split_char_selector", SPLIT_SELECTORS)):
+        f = fs[meth]
+        bad = []
+        for text, want in table:
+            r.instances += 1
+            try:
+                got = ev.run_function(f.node, [me, text])
+            except PE.PyRaise as err:
+                got = "raises %s" % err.exc_type
+            except PE.Unsupported as err:
+                r.error("%s cannot be interpreted statically (%s)" % (f.qualname, err))
+                return r
+            if isinstance(got, list):
+                got = tuple(got)
+            ok = got == want
+            r.ob(ok, "%s(%r) -> %r" % (meth, text, got) if r.obligations % 6 == 0 else None)
+            if not ok:
+                bad.append((text, got, want))
+        if bad:
+            text, got, want = bad[0]
+            r.fail("TypeDeclarationStatement.%s|selector-table" % meth, "TypeDeclarationStatement.%s(%r) gives %r, expected %r (%d of %d rows "
+                   "disagree): the length/kind expression of the declaration is regenerated with characters missing or moved"
+                   % (meth, text, got, want, len(bad), len(table)), m.loc(f))
+    return r
